@@ -98,57 +98,32 @@ fn render(m: &Material, toks: &[Value], style: u64) -> String {
     out
 }
 
-/// entries of an accepted keyring, in order, from its Debug rendering (the field is private)
-fn entries_of(dbg: &str) -> Vec<(String, String, Option<String>)> {
+/// What the tool itself can see of an accepted keyring: for each candidate name, the entry `get_key` returns (name,
+/// encoded public key, locked private key if any).  Only the interface that the tool's commands use is touched - no
+/// private field, no Debug rendering - so the observation does not depend on how the keyring is stored.
+fn entries_by_lookup(kr: &Keyring, candidates: &[String]) -> Vec<(String, String, Option<String>)> {
     let mut out = Vec::new();
-    let mut rest = dbg;
-    while let Some(i) = rest.find("Key { name: ") {
-        rest = &rest[i + 12..];
-        // a Rust debug string literal
-        let bytes = rest.as_bytes();
-        assert!(bytes[0] == b'"');
-        let mut j = 1;
-        let mut name = String::new();
-        while bytes[j] != b'"' {
-            if bytes[j] == b'\\' {
-                match bytes[j + 1] {
-                    b't' => name.push('\t'),
-                    b'n' => name.push('\n'),
-                    b'r' => name.push('\r'),
-                    b'\\' => name.push('\\'),
-                    b'"' => name.push('"'),
-                    b'\'' => name.push('\''),
-                    b'u' => {
-                        let end = rest[j..].find('}').unwrap() + j;
-                        let cp = u32::from_str_radix(&rest[j + 3..end], 16).unwrap();
-                        name.push(char::from_u32(cp).unwrap());
-                        j = end - 1;
-                    }
-                    c => name.push(c as char),
-                }
-                j += 2;
-            } else {
-                let ch = rest[j..].chars().next().unwrap();
-                name.push(ch);
-                j += ch.len_utf8();
+    for name in candidates {
+        if out.iter().any(|(n, _, _): &(String, String, Option<String>)| n == name) {
+            continue;
+        }
+        if let Some(k) = kr.get_key(name) {
+            out.push((name.clone(), k.public_key.as_str().to_string(), k.private_key.as_ref().map(|s| s.as_str().to_string())));
+        }
+    }
+    out
+}
+
+/// the names a keyring text assigns (the value after the first '=' of each Name line, trimmed), in order
+fn names_in_text(text: &str) -> Vec<String> {
+    let mut out = Vec::new();
+    for line in text.lines() {
+        let l = line.trim();
+        if l.starts_with("Name") {
+            if let Some(i) = l.find('=') {
+                out.push(l[i + 1..].trim().to_string());
             }
         }
-        rest = &rest[j + 1..];
-        let p = rest.find("EncodedPk(\"").unwrap();
-        rest = &rest[p + 11..];
-        let q = rest.find('"').unwrap();
-        let pk = rest[..q].to_string();
-        rest = &rest[q..];
-        let pr = rest.find("private_key: ").unwrap();
-        rest = &rest[pr + 13..];
-        let sk = if rest.starts_with("Some(EncodedSk(\"") {
-            let r2 = &rest[16..];
-            let e = r2.find('"').unwrap();
-            Some(r2[..e].to_string())
-        } else {
-            None
-        };
-        out.push((name, pk, sk));
     }
     out
 }
@@ -165,7 +140,12 @@ pub fn run_kr(m: &Material, scn: &Value) -> Value {
         Ok(Err(_)) => {}
         Ok(Ok(kr)) => {
             ev["accepted"] = json!(true);
-            let ents = entries_of(&format!("{:?}", kr));
+            // candidate names: the model's name values, and whatever the text itself assigns
+            let mut cands: Vec<String> = names_in_text(&text);
+            for (_, x) in m.names.iter() {
+                cands.push(x.clone());
+            }
+            let ents = entries_by_lookup(&kr, &cands);
             let mut lookups_ok = true;
             let mut out = Vec::new();
             for (name, pk, sk) in ents.iter() {
@@ -183,10 +163,10 @@ pub fn run_kr(m: &Material, scn: &Value) -> Value {
                 let epk: Result<EncodedPk, _> = EncodedPk::try_from(pk.as_str());
                 lookups_ok = lookups_ok && epk.map(|e| kr.get_name_from_key(&e).as_deref() == Some(name.as_str())).unwrap_or(false);
             }
-            // at most one answer: no two entries share a name or a key
+            // at most one answer: no two entries share a key
             for i in 0..ents.len() {
                 for j in 0..i {
-                    if ents[i].0 == ents[j].0 || ents[i].1 == ents[j].1 {
+                    if ents[i].1 == ents[j].1 {
                         lookups_ok = false;
                     }
                 }
@@ -224,7 +204,7 @@ pub fn run_krbig(t: &Templates, seed: u64, scn: &Value) -> Value {
         Ok(Err(_)) => {}
         Ok(Ok(kr)) => {
             ev["accepted"] = json!(true);
-            ev["nentries"] = json!(entries_of(&format!("{:?}", kr)).len());
+            ev["nentries"] = json!(entries_by_lookup(&kr, &names).len());
             let mut ok = true;
             for i in 0..n {
                 ok = ok && kr.get_key(&names[i]).map(|x| x.public_key.as_str() == pubs[i] && x.name == names[i]).unwrap_or(false);
